@@ -97,7 +97,7 @@ def parse_format_string(format_str: str, description_template: Optional[str] = N
     abs_amount = False
 
     for idx, part in enumerate(parts):
-        match = field_pattern.match(part)
+        match = field_pattern.fullmatch(part)  # the whole part: "{date}junk" is not a token
         if not match:
             raise ValueError(f"Invalid format at column {idx}: '{part}'. Expected {{field}} or {{field:format}}")
 
